@@ -59,6 +59,7 @@ Definition slit_eqb (a b : lit) : bool :=
   | LBool x, LBool y => Bool.eqb x y
   | LNil, LNil | LVoid, LVoid | LUndef, LUndef => true
   | LSym x, LSym y => Nat.eqb x y
+  | LOpaque x, LOpaque y => Nat.eqb x y
   | _, _ => false
   end.
 
@@ -115,7 +116,7 @@ Fixpoint eval (fuel : nat) (e : ast) (env : senv) (st : sstore) {struct fuel} : 
   | 0 => SOut
   | S fuel' =>
     match e with
-    | Lit l => SVal (SLit l) st
+    | Lit l => SVal (SLit (lit_value l)) st            (* a literal node denotes its datum *)
     | Ref x Global =>
         match glob_lookup x (sglobals st) with Some v => SVal v st | None => SErr EUndefGlobal end
     | Ref x o =>
